@@ -202,6 +202,20 @@ add(property='C20', id='C20-image-surface-dropped', status='fixed', commit='0853
                           {'type': 'STANDARD', 'curv': -0.02, 'disz': 45.0, 'conic': 0.0, 'parms': [0.0] * 8,
                            'glass': None}]})
 
+add(property='C17', id='C17-diattenuator-offdiagonal', status='open', clause='element_is_rotated_element',
+    what='JonesLinearDiattenuator off-diagonal entries are t_max - t_min*cos(theta)*sin(theta) (operator precedence) '
+         'instead of (t_max - t_min)*cos(theta)*sin(theta): at theta=0 the element is not diagonal; the value is pinned by '
+         'tests/test_jones.py, so it is recorded, not repaired',
+    region='JonesLinearDiattenuator', weakened_relation='diagonal entries follow R(theta) D R(-theta); off-diagonals equal',
+    reproducer={'kind': 'element', 'theta': 0.3, 'd': 1.0, 'tmin': 0.2, 'tmax': 0.9})
+add(property='C17', id='C17-tilted-frames', status='fixed', commit='76123e6', clause='field_stays_transverse',
+    what='fixed: property=C17 76123e6 polarization matrices were not rotated into tilted surface frames (field not '
+         'transverse, intensity not preserved after a tilted surface); index-matched curved surfaces used a rounding-noise '
+         's-vector',
+    reproducer={'kind': 'trace', 'spec': spec([surf(R=40.0, t=5.0, mat=glass(1.6), stop=True, rx=0.08),
+                                              surf(R=-60.0, t=40.0, ry=-0.05)], ap=('EPD', 8.0), fields=(0.0, 5.0)),
+                'rays': [[1.0, 0.3, 0.4], [1.0, -0.5, 0.5], [1.0, 0.0, 0.0]], 'state': {'name': 'H'}, 'wl': 0})
+
 for _e in F:
     if _e['id'] == 'C13-caller-arrays':
         _e['reproducer']['spec']['fields'][1].update(vx=0.2, vy=0.3)
